@@ -7,7 +7,8 @@ Inductive retval :=
 | RNone | RBool (b : bool) | RInt (z : Z) | RStr (s : str)
 | RFloat (nonzero : bool) (trunc : option Z)      (* float: truthiness, int() result (None: nan / inf) *)
 | RSeq (nonempty : bool)                          (* list / tuple / dict: int() raises TypeError *)
-| RObj.                                           (* any other object: truthy, int() raises TypeError *)
+| RObj.                                           (* an object WITHOUT __int__ / __index__ / __trunc__ / __bool__ / __len__ (object()): truthy, int()
+                                                     raises TypeError.  Fraction, Decimal, bytes, objects defining __int__ are not covered. *)
 Definition truthy (v : retval) : bool :=
   match v with
   | RNone => false | RBool b => b | RInt z => negb (z =? 0)%Z
